@@ -19,7 +19,14 @@
 //!
 
 use serde::{Deserialize, Serialize};
-use std::{collections::HashSet, fmt, hash::Hash, mem::take, ops::Deref, sync::Arc};
+use std::{
+    collections::HashSet,
+    fmt,
+    hash::Hash,
+    mem::take,
+    ops::Deref,
+    sync::{Arc, Weak},
+};
 use tokio::sync::{RwLock, RwLockReadGuard, oneshot, watch};
 use tracing::Instrument;
 
@@ -586,7 +593,10 @@ where
         let inner_task = inner.clone();
 
         // Process change events.
-        let tx_send = tx.clone();
+        // The task owns the relay sender, so that the relay channel is closed and
+        // subscribers of the mirror are notified when the task ends for any reason.
+        let tx_send = Arc::new(tx);
+        let tx = Arc::downgrade(&tx_send);
         exec::spawn(
             async move {
                 loop {
@@ -636,7 +646,7 @@ where
 /// A hash set that is mirroring an observable hash set.
 pub struct MirroredHashSet<T, Codec = crate::codec::Default> {
     inner: Arc<RwLock<Option<MirroredHashSetInner<T>>>>,
-    tx: rch::broadcast::Sender<HashSetEvent<T>, Codec>,
+    tx: Weak<rch::broadcast::Sender<HashSetEvent<T>, Codec>>,
     changed_rx: watch::Receiver<()>,
     _dropped_tx: oneshot::Sender<()>,
 }
@@ -715,7 +725,11 @@ where
     pub async fn subscribe(&self, buffer: usize) -> Result<HashSetSubscription<T, Codec>, RecvError> {
         let view = self.borrow().await?;
         let initial = view.clone();
-        let events = if view.is_done() { None } else { Some(self.tx.subscribe(buffer)) };
+        let events = if view.is_done() {
+            None
+        } else {
+            Some(self.tx.upgrade().ok_or(RecvError::Closed)?.subscribe(buffer))
+        };
 
         Ok(HashSetSubscription::new(HashSetInitialValue::new_value(initial), events))
     }
@@ -730,7 +744,11 @@ where
     pub async fn subscribe_incremental(&self, buffer: usize) -> Result<HashSetSubscription<T, Codec>, RecvError> {
         let view = self.borrow().await?;
         let initial = view.clone();
-        let events = if view.is_done() { None } else { Some(self.tx.subscribe(buffer)) };
+        let events = if view.is_done() {
+            None
+        } else {
+            Some(self.tx.upgrade().ok_or(RecvError::Closed)?.subscribe(buffer))
+        };
 
         Ok(HashSetSubscription::new(
             HashSetInitialValue::new_incremental(initial, Arc::new(default_on_err)),
